@@ -409,12 +409,8 @@ def placement_model(body):
             elif k == "if" and which == "else":
                 walk_if(br)
             else:
+                # a naked branch is rejected as a whole; what it contains is not judged separately
                 codes.add(840)
-                # what is inside a naked branch is still looked at
-                if k == "if":
-                    walk_if(br)
-                elif k == "loop":
-                    pass
 
     walk(body, True)
     return codes, lints[0]
